@@ -135,7 +135,9 @@ impl fmt::Display for Error {
                 write!(
                     f,
                     "attempted to unify unequal types `{}` and `{}`: {}",
-                    type1, type2, hint,
+                    final_data::Truncated(type1),
+                    final_data::Truncated(type2),
+                    hint,
                 )
             }
             Error::OccursCheck { infinite_bound } => {
